@@ -33,11 +33,13 @@ func scenarios(r *vr.Run) []*clustermc.Scenario {
 			Ops: []clustermc.OpSpec{w(1, "a", "A1", 1, 2), w(2, "x", "B1", 2, 1), w(1, "a", "A2", 1)}},
 		{Name: "t-1region-2ops-anyfault", Regions: 1, Leaders: []int{1}, Budget: 1, Faults: all, MaxDepth: 120,
 			Ops: []clustermc.OpSpec{w(1, "a", "A1", 1), w(1, "a", "A2", 1, 2)}},
-		{Name: "t-1region-1op-beat-anyfault", Regions: 1, Leaders: []int{1}, Budget: 1, Faults: all, MaxBeats: 1, MaxDepth: 120,
-			Ops: []clustermc.OpSpec{w(1, "a", "A1", 1, 2)}},
-		{Name: "t-1region-1op-2faults", Regions: 1, Leaders: []int{1}, Budget: 2, Faults: all, MaxDepth: 120,
+		{Name: "t-1region-1op-beat-dropdup", Regions: 1, Leaders: []int{1}, Budget: 1, Faults: clustermc.Faults{Drop: true, Dup: true}, MaxBeats: 1, MaxDepth: 120,
 			Ops: []clustermc.OpSpec{w(1, "a", "A1", 1)}},
-		{Name: "t-1region-isolate-campaign-heal-d16", Regions: 1, Leaders: []int{1}, Budget: 3, Faults: cp, MaxDepth: 16, DepthBound: true,
+		{Name: "t-1region-1op-2faults", Regions: 1, Leaders: []int{1}, Budget: 2, Faults: clustermc.Faults{Drop: true, Dup: true, Reorder: true}, MaxDepth: 120,
+			Ops: []clustermc.OpSpec{w(1, "a", "A1", 1)}},
+		{Name: "t-1region-2ops-2netfaults", Regions: 1, Leaders: []int{1}, Budget: 2, Faults: clustermc.Faults{Drop: true, Dup: true, Reorder: true}, MaxDepth: 120,
+			Ops: []clustermc.OpSpec{w(1, "a", "A1", 1), w(1, "a", "A2", 1)}},
+		{Name: "t-1region-isolate-campaign-heal-d14", Regions: 1, Leaders: []int{1}, Budget: 3, Faults: cp, MaxDepth: 14, DepthBound: true,
 			Ops: []clustermc.OpSpec{w(1, "a", "A1", 1), w(1, "a", "A2", 2)}},
 		{Name: "t-2regions-2ops-anyfault-d12", Regions: 2, Leaders: []int{1, 2}, Budget: 1, Faults: all, MaxDepth: 12, DepthBound: true,
 			Ops: []clustermc.OpSpec{w(1, "a", "A1", 1), w(2, "x", "B1", 2)}},
